@@ -5,9 +5,11 @@ import functools
 import itertools
 import math
 import operator
+import os
 import pathlib
 import pickle
 import random
+import threading
 from functools import lru_cache, partial, reduce
 from operator import or_
 
@@ -670,9 +672,15 @@ class DiskDict:
             if len(k) > 1:
                 # ensure subparent directories exist
                 fname.parent.mkdir(parents=True, exist_ok=True)
-            # write file!
-            with open(fname, "wb+") as f:
+            # write to a temporary file first and then atomically move it into
+            # place, so that a partially written entry is never visible, e.g.
+            # if the process is killed or another process is reading
+            tmp = fname.with_name(
+                f"{fname.name}.{os.getpid()}.{threading.get_ident()}.tmp"
+            )
+            with open(tmp, "wb+") as f:
                 pickle.dump(v, f)
+            os.replace(tmp, fname)
 
     def __getitem__(self, k):
         try:
